@@ -215,6 +215,8 @@ structure Cfg where
   win : WinCfg
   /-- `nt = nt._replace(broadcast=broadcast)` (true) or the value is dropped (false) -/
   broadcastAssigned : Bool
+  /-- Solaris `_proc_basic_info`: the AccessDenied for an unreadable PID 0 carries the cached name -/
+  sunosPid0Named : Bool
 
 def wrapExceptions (cfg : Cfg) (f : Family) (e : Err) (env : Env) : Outcome :=
   runClauses f cfg.win e env (cfg.clauses f)
@@ -320,7 +322,10 @@ def body (cfg : Cfg) (p : Platform) (m : Method) (call : String) (e : Err) (env 
     if isPermissionErr cfg.win e && !persistent then .settled .value else .leaves e
   | .absorbedIfAD =>
     (match wrapExceptions cfg f e env with
-     | .ad _ _ => .settled .value
+     | .ad _ _ =>
+       -- fall back to `_proc_basic_info()`: PID 0 without a readable /proc/0/psinfo is refused there
+       if env.pid == 0 && env.state == .gone then .settled (.ad env.pid cfg.sunosPid0Named)
+       else .settled .value
      | .raw e' => .leaves e'
      | o => .settled o)
   | .enoentThenAlive =>
@@ -384,10 +389,11 @@ def padMacGo (sep : Char) : Nat → List Char → List Char
 
 def padMac (sep : Char) (a : List Char) : List Char := padMacGo sep 5 a
 
-/-- 32-bit netmask of a prefix length -/
-def prefixMask (n : Nat) : Nat := (2 ^ 32 - 1) - (2 ^ (32 - n) - 1)
+/-- 32-bit netmask of a prefix length: `ipaddress._ip_int_from_prefix` = `ALL_ONES ^ (ALL_ONES >> prefixlen)` -/
+def prefixMask (n : Nat) : Nat := (2 ^ 32 - 1) ^^^ (2 ^ (32 - n) - 1)
 
-/-- `ipaddress.IPv4Network(f"{addr}/{mask}", strict=False).broadcast_address` for a prefix mask -/
+/-- `ipaddress.IPv4Network(f"{addr}/{mask}", strict=False).broadcast_address`
+    = `int(network_address) | int(hostmask)` with `network_address = addr & netmask` -/
 def ipv4Broadcast (addr plen : Nat) : Nat := (addr &&& prefixMask plen) ||| (2 ^ (32 - plen) - 1)
 
 inductive AddrFam | inet | inet6 | link | other
